@@ -91,6 +91,14 @@ Definition enc_server_hello (h : server_hello) : option bytes :=
   let? ex := enc_extensions_block (sh_extensions h) in
   enc_handshake 2 (enc_uint 2 (sh_version h) ++ sh_random h ++ sid ++ enc_uint 2 (sh_suite h) ++ enc_uint 1 (sh_compression h) ++ ex).
 
+(* The hello retry request of the library: the ServerHello layout (as in RFC 8446 4.1.4, where it is a ServerHello with a fixed
+   Random) under handshake type 6, the type the TLS 1.3 drafts gave the message *)
+Definition enc_hello_retry_request (h : server_hello) : option bytes :=
+  if negb (zlen (sh_random h) =? 32) then None else
+  let? sid := enc_opaque 0 32 (sh_session_id h) in
+  let? ex := enc_extensions_block (sh_extensions h) in
+  enc_handshake 6 (enc_uint 2 (sh_version h) ++ sh_random h ++ sid ++ enc_uint 2 (sh_suite h) ++ enc_uint 1 (sh_compression h) ++ ex).
+
 (* opaque ASN.1Cert<1..2^24-1>; struct { ASN.1Cert certificate_list<0..2^24-1>; } Certificate *)
 Definition enc_certificate (certs : list bytes) : option bytes :=
   let? items := enc_opaque_items 1 16777215 certs in let? l := enc_opaque 0 16777215 items in enc_handshake 11 l.
